@@ -8,6 +8,7 @@
 use super::*;
 
 pub(crate) static mut ANN_SIG_OK: bool = true; // ghost: ed25519 verdict
+pub(crate) static mut ANN_SIG_OK2: bool = true; // ghost: verdict for announcements whose key starts with 3 (mixed valid/invalid lists)
 pub(crate) static mut ANN_TIME_OK: bool = true; // ghost: |now - t| <= 45 s
 pub(crate) static mut ANN_CALLS: u32 = 0;
 pub(crate) static mut ANN_HASH0: u8 = 0; // first byte of the info_hash the caller asked to verify against
@@ -26,7 +27,7 @@ fn build(info_hash: &Id, key: &[u8], timestamp: u64, signature: &[u8], check_tim
         Ok(s) => s,
         Err(_) => return Err(SignedAnnounceError::Signature),
     };
-    if !unsafe { ANN_SIG_OK } {
+    if !(if key[0] == 3 { unsafe { ANN_SIG_OK2 } } else { unsafe { ANN_SIG_OK } }) {
         return Err(SignedAnnounceError::Signature);
     }
     if check_time && !unsafe { ANN_TIME_OK } {
@@ -87,7 +88,7 @@ fn stub_verify(k: &VerifyingKey, message: &[u8], signature: &Signature) -> Resul
     }
 }
 
-fn real_from_dht_message_case(request: bool) {
+fn real_from_dht_message_case(request: bool) -> (bool, bool, u64, u64) {
     let key_len: usize = kani::any();
     kani::assume(key_len == 31 || key_len == 32 || key_len == 33);
     let sig_len: usize = kani::any();
@@ -120,13 +121,9 @@ fn real_from_dht_message_case(request: bool) {
             "the signature was verified under the given key over info_hash || timestamp");
         assert!(a.key[..] == kbuf[..32] && a.timestamp == t && a.signature[..] == sbuf[..64], "the announcement carries the arguments unchanged");
     }
-    kani::cover!(r.is_ok());
-    if request {
-        kani::cover!(!r.is_ok() && key_len == 32 && point && sig_len == 64 && sig_ok, "refused only because of the timestamp");
-        kani::cover!(r.is_ok() && now == t.wrapping_add(45_000_000), "exactly 45 s old accepted");
-        kani::cover!(r.is_ok() && t == now.wrapping_add(45_000_000), "exactly 45 s ahead accepted");
-    }
+    let out = (r.is_ok(), key_len == 32 && point && sig_len == 64 && sig_ok, now, t);
     core::mem::forget(r);
+    out
 }
 
 #[kani::proof]
@@ -135,7 +132,11 @@ fn real_from_dht_message_case(request: bool) {
 #[kani::stub(<ed25519_dalek::VerifyingKey as ed25519_dalek::Verifier<ed25519_dalek::Signature>>::verify, stub_verify)]
 #[kani::stub(system_time, stub_system_time)]
 fn c03_signed_announce_request_ok_iff_signature_and_timestamp_within_45s() {
-    real_from_dht_message_case(true)
+    let (ok, crypto_ok, now, t) = real_from_dht_message_case(true);
+    kani::cover!(ok);
+    kani::cover!(!ok && crypto_ok, "refused only because of the timestamp");
+    kani::cover!(ok && now == t.wrapping_add(45_000_000), "exactly 45 s old accepted");
+    kani::cover!(ok && t == now.wrapping_add(45_000_000), "exactly 45 s ahead accepted");
 }
 
 #[kani::proof]
@@ -144,5 +145,7 @@ fn c03_signed_announce_request_ok_iff_signature_and_timestamp_within_45s() {
 #[kani::stub(<ed25519_dalek::VerifyingKey as ed25519_dalek::Verifier<ed25519_dalek::Signature>>::verify, stub_verify)]
 #[kani::stub(system_time, stub_system_time)]
 fn c02_signed_announce_response_ok_iff_signature_verifies() {
-    real_from_dht_message_case(false)
+    let (ok, crypto_ok, now, t) = real_from_dht_message_case(false);
+    kani::cover!(ok && (now > t.saturating_add(46_000_000)), "an old announcement is still authentic in a response");
+    kani::cover!(!ok && !crypto_ok);
 }
